@@ -17,7 +17,8 @@ def main():
     for i, a in enumerate(sys.argv):
         if a == "--props":
             props = sys.argv[i+1].split(",")
-    wt = f"/tmp/seed/{prop}"; out = f"{wt}/out/{k}"
+    root = os.environ.get("SEED_ROOT", "/tmp/seed")
+    wt = f"{root}/{prop}"; out = f"{wt}/out/{k}"
     meta = json.load(open(f"{out}/meta.json"))
     res = {"seed": f"{prop}-{k}", "summary": meta.get("summary", "")[:200]}
     def clean():
@@ -27,6 +28,9 @@ def main():
     m = re.search(r"place at:\s*(\S+)", demo)
     place = m.group(1) if m else None
     demo_cmd = meta.get("demo_cmd", "")
+    if not place:
+        m = re.search(r"cp\s+\S*demo_test\.go\s+(\S+)", demo_cmd)
+        place = m.group(1) if m else None
     # run only the go test part of the demo command
     m2 = re.search(r"(go test[^&;]*)", demo_cmd)
     gotest = m2.group(1).strip() if m2 else None
@@ -53,7 +57,7 @@ def main():
     # run the checks against the patched worktree
     allprops = [c["property_id"] for c in json.load(open("/verif/MANIFEST.json"))["checks"]]
     if props: allprops = props
-    vdir = f"/tmp/seed/verif_{prop}_{k}"
+    vdir = f"{root}/verif_{prop}_{k}"
     os.makedirs(vdir, exist_ok=True)
     shutil.copy("/verif/known_findings.jsonl", vdir)
     def run(pid):
